@@ -541,7 +541,9 @@ def check_params_and_timers(obs):
         if keepalive > 0:
             marks = [t_est] + sends + [t_end]
             for (prev, nxt) in zip(marks, marks[1:]):
-                if nxt - prev > keepalive * 10**6 + tol:
+                # only a stall (of the link or of a process) that overlaps the silent interval can have stretched it
+                gap_tol = 500000 + sum(flt[6] for flt in obs.faults if flt[4] in ('stall', 'slow') and flt[1] <= nxt and flt[1] + flt[6] >= prev)
+                if nxt - prev > keepalive * 10**6 + gap_tol:
                     out.append(('keepalive', 'gap', '%s wrote nothing for %.3f s although keepalive is %d s' % (
                         side, (nxt - prev) / 1e6, keepalive)))
                     break
